@@ -173,6 +173,22 @@ check("C18",
       "TLA+ spec (Haplo.tla) model-checked by TLC + TLC validation of recorded executions of the real functions and problems",
       "DESIGN.md C18")
 
+check("C11",
+      "TLC checks, for every well-formed map of <=4 rows over 2 chromosomes in every row order, that interpolation at the "
+      "map's own markers returns the stored positions, is order preserving for congruent maps and lies between the "
+      "flanking positions, and the lattice laws of the Haldane and Kosambi functions built from their addition laws "
+      "(monotone, within [0,1/2], closed under composition, Haldane <= Kosambi <= d). Real StandardGeneticMap and "
+      "ExtendedGeneticMap objects built from several row orders of small maps and from random maps with 2-4 chromosomes are "
+      "queried inside and outside the marker range and on absent chromosomes: stored order, is_congruent, interp_genpos, "
+      "interp_gmap, gdist1g/gdist2g/gdist1p/gdist2p (infinity pattern, symmetry, values) are validated by TLC in exact "
+      "scaled integers. mapfn/invmapfn of both functions and the crossover probabilities assigned by interp_xoprob on "
+      "lattice maps are compared with TLC's exact rationals r_k.",
+      "Genetic positions multiples of 1/8 Morgan and integer physical positions (all interpolants on the lattice 1/(8S)); "
+      "map functions decided on d = k*delta with r(delta)=1/10 plus 0 and infinity; the last float comparison (1e-9) of "
+      "lattice values is done in the harness on TLC-computed rationals; inverse asserted for d <= 3 Morgans.",
+      "TLA+ spec (GenMap.tla) model-checked by TLC + TLC validation of recorded map queries + TLC-computed exact lattice values for the map functions",
+      "DESIGN.md C11")
+
 def build():
     checks = []
     for pid in sorted(CHECKS):
